@@ -466,6 +466,10 @@ func (db *RockDB) ZRem(ts int64, key []byte, members ...[]byte) (int64, error) {
 	if err != nil {
 		return 0, err
 	}
+	if keyInfo.IsNotExistOrExpired() {
+		// an expired collection is absent: its dead members are neither reported nor counted
+		return 0, nil
+	}
 	table := keyInfo.Table
 
 	wb := db.wb
